@@ -97,7 +97,7 @@ Definition ends_with_space (s : list N) : bool :=
   match rev s with 32 :: _ => true | _ => false end.
 Definition pop (s : list N) : list N := removelast s.
 
-(* fn cleanup_escape_ws *)
+(* fn cleanup_escape_ws (the part `\ `, an escaped space, keeps its space) *)
 Fixpoint cleanup (ps : list (list N)) : list (list N) :=
   match ps with
   | [] => []
@@ -105,7 +105,7 @@ Fixpoint cleanup (ps : list (list N)) : list (list N) :=
       let s' :=
         match s with
         | c :: _ =>
-            if (c =? 92) && ends_with_space s then
+            if (c =? 92) && ends_with_space s && negb (cps_eqb s [92; 32]) then
               match rest with
               | [] => pop s
               | (n :: _) :: _ => if negb (is_hex n) && negb (n =? 9) then pop s else s
